@@ -224,3 +224,52 @@ func (k *KeyData) UnmarshalJSON(b []byte) error {
 	}
 	return nil
 }
+
+// snapshotObjectJSON is the JSON form of SnapshotObject. Key names become the names of JSON object members, and
+// encoding/json replaces every byte of such a name that is not valid UTF-8 by U+FFFD (the key comes back under
+// another name, and two keys can collapse into one). When KeyEncoding is "tagged" the names in State have gone
+// through EncodeString; a file without KeyEncoding was written before that and its names are taken as they are.
+type snapshotObjectJSON struct {
+	State                      map[int]map[string]KeyData
+	LatestSnapshotMilliseconds int64
+	KeyEncoding                string `json:"KeyEncoding,omitempty"`
+}
+
+func (s SnapshotObject) MarshalJSON() ([]byte, error) {
+	out := snapshotObjectJSON{
+		State:                      make(map[int]map[string]KeyData, len(s.State)),
+		LatestSnapshotMilliseconds: s.LatestSnapshotMilliseconds,
+		KeyEncoding:                "tagged",
+	}
+	for database, data := range s.State {
+		out.State[database] = make(map[string]KeyData, len(data))
+		for key, keyData := range data {
+			out.State[database][EncodeString(key)] = keyData
+		}
+	}
+	return json.Marshal(out)
+}
+
+func (s *SnapshotObject) UnmarshalJSON(b []byte) error {
+	var in snapshotObjectJSON
+	if err := json.Unmarshal(b, &in); err != nil {
+		return err
+	}
+	s.LatestSnapshotMilliseconds = in.LatestSnapshotMilliseconds
+	if in.KeyEncoding != "tagged" {
+		s.State = in.State
+		return nil
+	}
+	s.State = make(map[int]map[string]KeyData, len(in.State))
+	for database, data := range in.State {
+		s.State[database] = make(map[string]KeyData, len(data))
+		for encoded, keyData := range data {
+			key, err := DecodeString(encoded)
+			if err != nil {
+				return err
+			}
+			s.State[database][key] = keyData
+		}
+	}
+	return nil
+}
